@@ -30,9 +30,7 @@ class Profile:
         self.lat_max = d.get('lat_max', 200)
 
 
-class Deadlock(BaseException):
-    """A lock that is already held is acquired again: with every handler of the node running to completion on
-    one thread nobody can ever release it - the real node's thread would block here for good."""
+from simkit.core import Deadlock  # noqa: E402  (re-exported: the checks import it from here)
 
 
 class SimLock:
